@@ -29,15 +29,24 @@ Definition supported (alg : str) : Prop := In alg (map fst (t_algs actual)).
    It is REFUTED on the unchanged code: pack.py signs with urllib.parse.urlencode (tilde left
    alone) while sigver.py rebuilds the string with future.backports.urllib.parse.urlencode
    (tilde percent-encoded), so a RelayState containing a tilde never verifies. *)
+Definition own_cert_full (T : tables) : Prop :=
+  forall stv e sk k typ m rs alg ov, msg_typ typ -> In alg (map fst (t_algs T)) -> sh_get stv alg = Some ov ->
+    verifies (verify_redirect_signature T stv e (signed_query T k (so_digest ov) typ m rs alg) (Some k) sk) = true.
+
+(* stated under the regenerated fact that the two modules use different encoders (true today: see
+   C15_encoder_status), so that the file keeps compiling once the import is repaired *)
 Theorem C15_own_cert_verifies_refuted :
+  t_sign_tilde actual <> t_verify_tilde actual ->
   exists stv e sk k typ m rs alg ov, msg_typ typ /\ supported alg /\ sh_get stv alg = Some ov /\
     verifies (verify_redirect_signature actual stv e
                 (signed_query actual k (so_digest ov) typ m rs alg) (Some k) sk) = false.
 Proof.
-  exists (init_shared actual), (Some 2), None, 1, K_REQ, (s2l "eJwrSS0uAQAEXQHB"), (s2l "a~b"),
-         (s2l "http://www.w3.org/2001/04/xmldsig-more#rsa-sha256"),
-         {| so_digest := s2l "sha256"; so_key := None |}.
-  vm_compute. repeat split; try reflexivity. left; reflexivity. right; right; left; reflexivity.
+  intros Hdiff.
+  first [ exfalso; apply Hdiff; reflexivity
+        | exists (init_shared actual), (Some 2), None, 1, K_REQ, (s2l "eJwrSS0uAQAEXQHB"), (s2l "a~b"),
+                 (s2l "http://www.w3.org/2001/04/xmldsig-more#rsa-sha256"),
+                 {| so_digest := s2l "sha256"; so_key := None |};
+          vm_compute; repeat split; try reflexivity; [left; reflexivity | right; right; left; reflexivity] ].
 Qed.
 Print Assumptions C15_own_cert_verifies_refuted.
 
@@ -57,18 +66,27 @@ Print Assumptions C15_own_cert_verifies_partial.
 (* and the full statement follows for any tables in which both modules use the same encoder
    (what remains to instantiate once the import is repaired) *)
 Theorem C15_own_cert_verifies_if_same_encoder :
-  forall T, tables_ok T = true -> t_sign_tilde T = t_verify_tilde T ->
-  forall stv e sk k typ m rs alg ov, msg_typ typ -> In alg (map fst (t_algs T)) -> sh_get stv alg = Some ov ->
-    verifies (verify_redirect_signature T stv e (signed_query T k (so_digest ov) typ m rs alg) (Some k) sk) = true.
+  forall T, tables_ok T = true -> t_sign_tilde T = t_verify_tilde T -> own_cert_full T.
 Proof. intros T HT He stv e sk k typ m rs alg ov Ht Ha Hg. apply own_cert_verifies; try assumption. now left. Qed.
 Print Assumptions C15_own_cert_verifies_if_same_encoder.
 
+(* which of the two situations the source is in NOW (decided on the regenerated flags): the encoders differ
+   (the refutation above is not vacuous), or they agree and the FULL statement is proved *)
+Theorem C15_encoder_status :
+  t_sign_tilde actual <> t_verify_tilde actual \/
+  (t_sign_tilde actual = t_verify_tilde actual /\ own_cert_full actual).
+Proof.
+  first [ left; vm_compute; discriminate
+        | right; split; [reflexivity | exact (C15_own_cert_verifies_if_same_encoder actual C15_tables eq_refl)] ].
+Qed.
+Print Assumptions C15_encoder_status.
+
 (* what http_redirect_message returns when the handle's shared object holds key k IS that signed query *)
 Theorem C15_sign_produces :
-  forall st typ m rs alg o k, msg_typ typ -> supported alg -> sh_get st alg = Some o -> so_key o = Some k ->
-    http_redirect_message actual st typ m rs alg (Some alg) = Ok (signed_query actual k (so_digest o) typ m rs alg).
+  forall st typ m rs alg o k h, msg_typ typ -> supported alg -> sh_get st (fst h) = Some o -> handle_key actual o h = Some k ->
+    http_redirect_message actual st typ m rs alg (Some h) = Ok (signed_query actual k (so_digest o) typ m rs alg).
 Proof.
-  intros st typ m rs alg o k Ht Ha Hg Hk. apply sign_produces; try assumption.
+  intros st typ m rs alg o k h Ht Ha Hg Hk. apply sign_produces; try assumption.
   now destruct (supported_facts actual C15_tables alg Ha).
 Qed.
 Print Assumptions C15_sign_produces.
@@ -141,7 +159,7 @@ Print Assumptions C15_needs_signature.
 Theorem C15_supported_set_is_static :
   forall tr a, sh_get (exec actual (init_shared actual) tr) a = None <-> ~ supported a.
 Proof.
-  intros tr a. rewrite exec_get. unfold supported, init_shared.
+  intros tr a. rewrite (exec_domain actual tr). unfold supported, init_shared.
   induction (t_algs actual) as [|[u d] l IH]; cbn [map sh_get fst snd In].
   - split; [tauto|reflexivity].
   - destruct (str_eqb_spec a u) as [->|Hne].
@@ -151,61 +169,98 @@ Qed.
 Print Assumptions C15_supported_set_is_static.
 
 (* ---- (2) schedules ----
-   Exact behaviour of the unchanged code, for EVERY trace (any entities, any length, any interleaving;
+   t_shared actual (regenerated: measured on the real objects on every run) says whether get_signer hands out
+   the module-level signer object and stores the caller's key on it (true today) or a fresh object per call.
+   The statements about the shared-object behaviour carry that fact as a hypothesis so that this file keeps
+   compiling after a repair; C15_schedule_status says which situation holds NOW. *)
+Definition own_key_full (T : tables) : Prop :=
+  forall st pre e a h mid typ m rs sigalg q,
+    snd (step T (exec T st pre) (OGet e a)) = OutHandle (Some h) ->
+    snd (step T (exec T st (pre ++ OGet e a :: mid)) (OSign e typ m rs sigalg (Some h))) = OutSigned (Ok q) ->
+    used_key (Ok q) = e.
+
+(* Exact behaviour of the unchanged code, for EVERY trace (any entities, any length, any interleaving;
    induction over the trace): a Sign step uses the key LAST STORED for its algorithm by anybody. *)
 Theorem C15_sign_uses_last_writer :
+  t_shared actual = true ->
   forall st tr e typ m rs sigalg h q,
     snd (step actual (exec actual st tr) (OSign e typ m rs sigalg (Some h))) = OutSigned (Ok q) ->
-    exists o, sh_get st h = Some o /\
-              used_key (Ok q) = match last_write h tr None with Some v => v | None => so_key o end.
-Proof. exact (sign_uses_last_writer actual). Qed.
+    exists o, sh_get st (fst h) = Some o /\
+              used_key (Ok q) = match last_write (fst h) tr None with Some v => v | None => so_key o end.
+Proof. intros SH st tr e typ m rs sigalg h q. exact (sign_uses_last_writer actual st tr e typ m rs sigalg h q SH). Qed.
 Print Assumptions C15_sign_uses_last_writer.
 
-(* FULL STATEMENT (the signer's own key whatever others do in between):
-     forall st pre e a mid typ m rs sigalg q,
-       snd (step actual (exec actual st (pre ++ OGet e a :: mid)) (OSign e typ m rs sigalg (Some a)))
-         = OutSigned (Ok q) -> used_key (Ok q) = e.
-   REFUTED on the unchanged code by the three-step schedule  A.get_signer ; B.get_signer ; A.sign
-   (RSACrypto.get_signer stores the caller's key on the module-level shared RSASigner):
-   A's URL is signed with B's key.  The same with B verifying in between. *)
+(* FULL STATEMENT = own_key_full actual (the signer's own key whatever others do between obtaining the
+   handle and signing).  REFUTED on the unchanged code by the three-step schedule
+       A.get_signer ; B.get_signer ; A.sign
+   (RSACrypto.get_signer stores the caller's key on the module-level shared RSASigner): A's URL is signed
+   with B's key.  The same with B verifying in between. *)
 Definition ALG256 : str := s2l "http://www.w3.org/2001/04/xmldsig-more#rsa-sha256".
 Definition keyA : keyid := 1.
 Definition keyB : keyid := 2.
 Theorem C15_own_key_any_schedule_refuted :
-  exists st pre e a mid typ m rs sigalg q,
-    snd (step actual (exec actual st (pre ++ OGet e a :: mid)) (OSign e typ m rs sigalg (Some a))) = OutSigned (Ok q) /\
+  t_shared actual = true ->
+  exists st pre e a h mid typ m rs sigalg q,
+    snd (step actual (exec actual st pre) (OGet e a)) = OutHandle (Some h) /\
+    snd (step actual (exec actual st (pre ++ OGet e a :: mid)) (OSign e typ m rs sigalg (Some h))) = OutSigned (Ok q) /\
     used_key (Ok q) <> e /\
     (* and that URL verifies under the OTHER entity's certificate, not under the signer's *)
     verifies (verify_redirect_signature actual (init_shared actual) None q (Some keyB) None) = true /\
     verifies (verify_redirect_signature actual (init_shared actual) None q (Some keyA) None) = false.
 Proof.
-  exists (init_shared actual), [], (Some keyA), ALG256, [OGet (Some keyB) ALG256],
-         K_REQ, (s2l "eJwrSS0uAQAEXQHB"), (s2l "rs"), ALG256.
-  eexists. split; [vm_compute; reflexivity|]. split; [vm_compute; discriminate|]. split; vm_compute; reflexivity.
+  intros SH.
+  first [ discriminate SH
+        | exists (init_shared actual), [], (Some keyA), ALG256, (ALG256, Some keyA), [OGet (Some keyB) ALG256],
+                 K_REQ, (s2l "eJwrSS0uAQAEXQHB"), (s2l "rs"), ALG256;
+          eexists; split; [vm_compute; reflexivity|]; split; [vm_compute; reflexivity|];
+          split; [vm_compute; discriminate|]; split; vm_compute; reflexivity ].
 Qed.
 Print Assumptions C15_own_key_any_schedule_refuted.
 
 Theorem C15_own_key_verify_between_refuted :
+  t_shared actual = true ->
   exists q0 q,
     snd (step actual (exec actual (init_shared actual)
            [OGet (Some keyA) ALG256; OVerify (Some keyB) q0 (Some keyA) None])
-           (OSign (Some keyA) K_REQ (s2l "eJwrSS0uAQAEXQHB") [] ALG256 (Some ALG256))) = OutSigned (Ok q) /\
+           (OSign (Some keyA) K_REQ (s2l "eJwrSS0uAQAEXQHB") [] ALG256 (Some (ALG256, Some keyA)))) = OutSigned (Ok q) /\
     used_key (Ok q) = Some keyB.
 Proof.
-  exists {| q_params := [(K_REQ, s2l "x"); (K_ALG, ALG256)]; q_sig := Some (SigJunk true) |}.
-  eexists. split; vm_compute; reflexivity.
+  intros SH.
+  first [ discriminate SH
+        | exists {| q_params := [(K_REQ, s2l "x"); (K_ALG, ALG256)]; q_sig := Some (SigJunk true) |};
+          eexists; split; vm_compute; reflexivity ].
 Qed.
 Print Assumptions C15_own_key_verify_between_refuted.
 
 (* PARTIAL: own key, for every trace in which no step between obtaining the handle and signing stores
    a different key for that algorithm (e.g. one key per process, or get_signer+sign not interleaved) *)
 Theorem C15_own_key_partial :
-  forall st pre e a mid typ m rs sigalg q,
+  t_shared actual = true ->
+  forall st pre e a h mid typ m rs sigalg q,
     Forall (keeps a e) mid ->
-    snd (step actual (exec actual st (pre ++ OGet e a :: mid)) (OSign e typ m rs sigalg (Some a))) = OutSigned (Ok q) ->
+    snd (step actual (exec actual st pre) (OGet e a)) = OutHandle (Some h) ->
+    snd (step actual (exec actual st (pre ++ OGet e a :: mid)) (OSign e typ m rs sigalg (Some h))) = OutSigned (Ok q) ->
     used_key (Ok q) = e.
-Proof. exact (own_key_partial actual). Qed.
+Proof.
+  intros SH st pre e a h mid typ m rs sigalg q Hmid Hh H. apply get_handle_shape in Hh. subst h.
+  exact (own_key_partial actual st pre e a e mid typ m rs sigalg q SH Hmid H).
+Qed.
 Print Assumptions C15_own_key_partial.
+
+(* the FULL statement for any tables in which get_signer returns a fresh signer object per call *)
+Theorem C15_own_key_any_schedule_if_fresh_signer : forall T, t_shared T = false -> own_key_full T.
+Proof. intros T F st pre e a h mid typ m rs sigalg q Hh H. exact (own_key_fresh T _ e a h F Hh _ typ m rs sigalg q H). Qed.
+Print Assumptions C15_own_key_any_schedule_if_fresh_signer.
+
+(* which situation the source is in NOW: shared signer objects (the refutations above are not vacuous),
+   or fresh ones and the FULL statement is proved for the actual tables *)
+Theorem C15_schedule_status :
+  t_shared actual = true \/ (t_shared actual = false /\ own_key_full actual).
+Proof.
+  first [ left; reflexivity
+        | right; split; [reflexivity | exact (C15_own_key_any_schedule_if_fresh_signer actual eq_refl)] ].
+Qed.
+Print Assumptions C15_schedule_status.
 
 (* ---- non-vacuity: a signed request with RelayState, made through apply_binding by A after B used the
    table, verifies under A, not under B; mutations fail; the hypotheses above are satisfiable ---- *)
